@@ -10,7 +10,7 @@ from ..model import types as T
 from ..model.types import render, witness
 
 PROP = 'C05'
-PRELUDE = ('struct HT(a: int)\nfn nf0()->int{ 1 } fn nf1(x: int)->int{ x } fn nf2(x: int, y: int)->int{ x } fn nf12(x: int, y: int ?= 1)->int{ x } '
+PRELUDE = ('struct HT(a: int)\nstruct HS<X>(a: X)\nfn nf0()->int{ 1 } fn nf1(x: int)->int{ x } fn nf2(x: int, y: int)->int{ x } fn nf12(x: int, y: int ?= 1)->int{ x } '
            'fn nf01(x: int ?= 1)->int{ x } fn nfs(x: str)->int{ 1 }\n')
 
 
@@ -90,8 +90,12 @@ def decl(name, ov, rename=None, pn='p'):
     def rt(t):
         if isinstance(t, tuple) and t[0] == 'var':
             return ren.get(t[1], t[1])
-        if isinstance(t, tuple) and t[0] == 'nat':
+        if isinstance(t, tuple) and t[0] in ('nat', 'cmp') and t[2]:
             return '%s<%s>' % (t[1], ', '.join(rt(a) for a in t[2]))
+        if isinstance(t, tuple) and t[0] == 'tup':
+            return '(%s)' % ', '.join(rt(a) for a in t[1])
+        if isinstance(t, tuple) and t[0] == 'fn':
+            return '(%s)->(%s)' % (', '.join(rt(a) for a in t[1]), rt(t[2]))
         return render(t)
     ps = []
     for i, (t, opt) in enumerate(params):
@@ -248,15 +252,27 @@ def extra_programs(tier):
     HOST = ('cmp', 'HostT', ())
     ALPHA['g_T_oT'] = ('g_T_oT', ['T'], [(V('T'), False), (V('T'), True)])      # only used here: the default is an int literal
     DEFAULTS[V('T')] = '0'
-    top_pool = ['g_T', 'g_T_T', 'n_int', 'n_str', 'g_seqT', 'g_A_B', 'g_T_int', 'g_T_oT']
+    # the callee's type parameter inside a container, next to a bare occurrence: the caller's namesake parameter meets it inside
+    # a sequence, a tuple, a user struct and a function type
+    TUPV, FNV, CMPV = ('tup', (V('T'), 'int')), ('fn', (V('T'),), 'int'), ('cmp', 'HS', (V('T'),))
+    ALPHA['g_tupT_T'] = ('g_tupT_T', ['T'], [(TUPV, False), (V('T'), False)])
+    ALPHA['g_fnT_T'] = ('g_fnT_T', ['T'], [(FNV, False), (V('T'), False)])
+    ALPHA['g_cmpT_T'] = ('g_cmpT_T', ['T'], [(CMPV, False), (V('T'), False)])
+    ALPHA['g_tupA_B'] = ('g_tupA_B', ['A', 'B'], [(('tup', (V('A'), 'int')), False), (V('B'), False)])
+    top_pool = ['g_T', 'g_T_T', 'n_int', 'n_str', 'g_seqT', 'g_A_B', 'g_T_int', 'g_T_oT', 'g_seqT_T', 'g_tupT_T', 'g_fnT_T', 'g_cmpT_T', 'g_tupA_B']
+    wide = set(top_pool[8:])
     nested_pool = [('nh_T', [], [(HOST, False)]), ('nh_T_T', [], [(HOST, False), (HOST, False)]), ('nh_seqT', [], [(nat('Sequence', HOST), False)]), ('nh_T_int', [], [(HOST, False), ('int', False)])]
+    TUPH, FNH, CMPH = ('tup', (HOST, 'int')), ('fn', (HOST,), 'int'), ('cmp', 'HS', (HOST,))
     hcalls = [(HOST,), (HOST, HOST), (nat('Sequence', HOST),), (HOST, 'int'), ('int',), ('int', HOST)]
-    hwit = {HOST: 'x', nat('Sequence', HOST): '[x]', 'int': '1'}
+    hcalls_wide = [(c, a) for c in (nat('Sequence', HOST), TUPH, FNH, CMPH) for a in (HOST, 'int')]
+    hwit = {HOST: 'x', nat('Sequence', HOST): '[x]', 'int': '1', TUPH: '(x, 1)', FNH: '(q: GN)->{ 1 }', CMPH: 'HS(x)'}
     for kt in (0, 1, 2):
         for ts in itertools.combinations(top_pool, kt):
             for kn in (0, 1, 2):
                 for ns in itertools.combinations(nested_pool, kn):
                     if kt + kn == 0:
+                        continue
+                    if wide & set(ts) and kn == 2:
                         continue
                     for gname in ('T', 'U'):
                         gid += 1
@@ -273,10 +289,10 @@ def extra_programs(tier):
                                 return render(t)
                             nested += 'fn %s(%s)->str{ "%s" } ' % (name, ', '.join('y%d: %s' % (i, rt(t)) for i, (t, o) in enumerate(params)), key)
                         calls = []
-                        for j, c in enumerate(hcalls):
+                        for j, c in enumerate(hcalls + (hcalls_wide if wide & set(ts) else [])):
                             exp = resolve(cands, c)
                             text = '%sfn gh%d_%d<%s>(x: %s)->str{ %s%s(%s) } let c%d_%d = gh%d_%d(5); let e%d_%d = gh%d_%d("a");' % (
-                                top if j == 0 else '', gid, j, gname, gname, nested, name, ', '.join(hwit[a] for a in c), gid, j, gid, j, gid, j, gid, j)
+                                top if j == 0 else '', gid, j, gname, gname, nested, name, ', '.join(hwit[a].replace('GN', gname) for a in c), gid, j, gid, j, gid, j, gid, j)
                             if j == 0 and top:
                                 calls.append(('decl', top, None, 'DECL'))
                                 text = text[len(top):]
